@@ -294,6 +294,13 @@ func describeAval(v aval) string {
 		return "?(" + t.why + ")"
 	case aptr:
 		return "&" + t.obj.name + "." + t.path
+	case astrv, avals, amap:
+		d, _ := describeStrVal(t)
+		return d
+	case apos:
+		return fmt.Sprintf("pos(atom %d+%d%+d)", t.ai, t.off, t.delta)
+	case nil:
+		return "-"
 	case astruct:
 		var ks []string
 		for k, x := range t.f {
@@ -306,6 +313,9 @@ func describeAval(v aval) string {
 }
 
 func (e *absEnv) binop(op token.Token, a, b aval) aval {
+	if v, ok := strBinop(op, a, b); ok {
+		return v
+	}
 	// booleans
 	if x, ok := a.(abool); ok {
 		if y, ok := b.(abool); ok {
@@ -342,6 +352,14 @@ func (e *absEnv) binop(op token.Token, a, b aval) aval {
 				return x - y
 			case token.MUL:
 				return x * y
+			case token.REM:
+				if y != 0 {
+					return x % y
+				}
+			case token.QUO:
+				if y != 0 {
+					return x / y
+				}
 			case token.EQL:
 				return abool(x == y)
 			case token.NEQ:
@@ -357,6 +375,23 @@ func (e *absEnv) binop(op token.Token, a, b aval) aval {
 			}
 		}
 	}
+	// anything modulo 1 is 0 (reservoir sampling's first draw)
+	if op == token.REM {
+		if y, ok := b.(aint); ok && y == 1 {
+			return aint(0)
+		}
+	}
+	// pointer identity
+	if x, ok := a.(aptr); ok {
+		if y, ok := b.(aptr); ok {
+			switch op {
+			case token.EQL:
+				return abool(x.obj == y.obj && x.path == y.path)
+			case token.NEQ:
+				return abool(!(x.obj == y.obj && x.path == y.path))
+			}
+		}
+	}
 	// nil comparisons
 	_, an := a.(anil)
 	_, bn := b.(anil)
@@ -367,8 +402,12 @@ func (e *absEnv) binop(op token.Token, a, b aval) aval {
 		_, bf := b.(afunc)
 		_, ai := a.(aiface)
 		_, bi := b.(aiface)
+		_, am := a.(amap)
+		_, bm := b.(amap)
+		_, av := a.(avals)
+		_, bv := b.(avals)
 		eq := an && bn
-		known := (an && bn) || ap || bp || af || bf || ai || bi
+		known := (an && bn) || ap || bp || af || bf || ai || bi || am || bm || av || bv
 		if known {
 			switch op {
 			case token.EQL:
@@ -442,6 +481,9 @@ func (e *absEnv) call(fn *ssa.Function, args []aval, free []aval, depth int) ava
 			if e.steps > e.maxSteps {
 				e.abort("step limit exceeded in %s", fn.Name())
 			}
+			if e.instrStr(fr, in) {
+				continue
+			}
 			switch t := in.(type) {
 			case *ssa.Phi, *ssa.DebugRef:
 			case *ssa.Alloc:
@@ -478,7 +520,11 @@ func (e *absEnv) call(fn *ssa.Function, args []aval, free []aval, depth int) ava
 				}
 			case *ssa.Index:
 				idx, iok := e.val(fr, t.Index).(aint)
-				if x, ok := e.val(fr, t.X).(astruct); ok && iok {
+				if v, ok := strIndex(e.val(fr, t.X), int64(idx)); ok && iok {
+					fr.regs[t] = v
+				} else if _, isS := toAtoms(e.val(fr, t.X)); isS {
+					e.abort("string index at a position the abstraction cannot place (%s[%s])", describeAval(e.val(fr, t.X)), describeAval(e.val(fr, t.Index)))
+				} else if x, ok := e.val(fr, t.X).(astruct); ok && iok {
 					k := fmt.Sprintf("#%d", idx)
 					if v, ok := x.f[k]; ok {
 						fr.regs[t] = v
@@ -504,6 +550,11 @@ func (e *absEnv) call(fn *ssa.Function, args []aval, free []aval, depth int) ava
 					// element i of a []*T: a cell holding the pointer
 					cell := &aobj{name: fmt.Sprintf("cell%d", idx), typ: t.Type().(*types.Pointer).Elem(), f: map[string]aval{"": aptr{x.elems[idx], ""}}}
 					fr.regs[t] = aptr{cell, ""}
+				case avals:
+					if !iok || int(idx) < 0 || int(idx) >= len(x.cells) {
+						e.abort("index out of the abstract slice in %s", fn.Name())
+					}
+					fr.regs[t] = aptr{x.cells[idx], ""}
 				case aptr:
 					if _, isArr := underlying(leafTypeOr(x.obj.typ, x.path)).(*types.Array); isArr && iok {
 						fr.regs[t] = aptr{x.obj, joinPath(x.path, fmt.Sprintf("#%d", idx))}
@@ -551,7 +602,7 @@ func (e *absEnv) call(fn *ssa.Function, args []aval, free []aval, depth int) ava
 				}
 				e.store(p.obj, p.path, e.val(fr, t.Val))
 			case *ssa.Convert:
-				fr.regs[t] = e.val(fr, t.X)
+				fr.regs[t] = e.convert(t, e.val(fr, t.X))
 			case *ssa.ChangeType:
 				fr.regs[t] = e.val(fr, t.X)
 			case *ssa.MakeInterface:
@@ -595,6 +646,8 @@ func (e *absEnv) call(fn *ssa.Function, args []aval, free []aval, depth int) ava
 					out = append(out, e.val(fr, r))
 				}
 				return out
+			case *ssa.Defer, *ssa.RunDefers, *ssa.Go:
+				// deferred and concurrent calls are outside the abstraction (locks, logging)
 			case *ssa.Panic:
 				e.abort("reaches an explicit panic in %s", fn.Name())
 			default:
@@ -639,9 +692,43 @@ func (e *absEnv) doCall(fr *absFrame, c *ssa.CallCommon, depth int) aval {
 				return aint(len(x.elems))
 			case astr:
 				return aint(len(x))
+			case astrv:
+				if n, ok := strLen(x); ok {
+					return aint(n)
+				}
+				return aunk{"length of a string with labels of unknown length"}
+			case avals:
+				return aint(len(x.cells))
+			case amap:
+				return aint(len(x.m.vals))
 			case anil:
 				return aint(0)
 			}
+		case "append":
+			var cells []*aobj
+			var elem types.Type = types.Typ[types.Invalid]
+			if sl, ok := underlying(c.Args[0].Type()).(*types.Slice); ok {
+				elem = sl.Elem()
+			}
+			switch x := e.val(fr, c.Args[0]).(type) {
+			case avals:
+				cells = append(cells, x.cells...)
+			case anil:
+			default:
+				return aunk{"append to " + describeAval(x)}
+			}
+			if len(c.Args) > 1 {
+				switch y := e.val(fr, c.Args[1]).(type) {
+				case avals:
+					for _, cl := range y.cells {
+						cells = append(cells, &aobj{name: "elem", typ: elem, f: map[string]aval{"": cl.f[""]}})
+					}
+				case anil:
+				default:
+					return aunk{"append of " + describeAval(y)}
+				}
+			}
+			return avals{cells}
 		case "min", "max":
 			// integer min/max over ordered symbols
 			vals := make([]aval, len(c.Args))
@@ -687,6 +774,9 @@ func (e *absEnv) doCall(fr *absFrame, c *ssa.CallCommon, depth int) aval {
 		if v, ok := e.ext(calleeName(c), args); ok {
 			return v
 		}
+	}
+	if v, ok := e.strCall(calleeName(c), args); ok {
+		return v
 	}
 	if callee == nil || len(callee.Blocks) == 0 {
 		return aunk{"call " + calleeName(c)}
@@ -777,4 +867,71 @@ func (e *absEnv) runForks(fn *ssa.Function, mk func() []aval, each func(res aval
 		plan = append(log[:k:k], true)
 	}
 	each(nil, "more than 4096 resolutions of undecidable branches", 0)
+}
+
+// convert models the conversions between strings, bytes and byte slices (everything else passes through).
+func (e *absEnv) convert(t *ssa.Convert, x aval) aval {
+	isStrT := func(tt types.Type) bool {
+		b, ok := underlying(tt).(*types.Basic)
+		return ok && b.Info()&types.IsString != 0
+	}
+	isIntT := func(tt types.Type) bool {
+		b, ok := underlying(tt).(*types.Basic)
+		return ok && b.Info()&types.IsInteger != 0
+	}
+	isBytes := func(tt types.Type) bool {
+		sl, ok := underlying(tt).(*types.Slice)
+		if !ok {
+			return false
+		}
+		b, ok := underlying(sl.Elem()).(*types.Basic)
+		return ok && b.Kind() == types.Uint8
+	}
+	from, to := t.X.Type(), t.Type()
+	switch {
+	case isIntT(from) && isStrT(to):
+		switch v := x.(type) {
+		case aint:
+			return astr(string(rune(v)))
+		case astrv:
+			return v // a byte taken from an abstract string
+		}
+		return aunk{"string(" + describeAval(x) + ")"}
+	case isStrT(from) && isBytes(to):
+		a, ok := toAtoms(x)
+		if !ok {
+			return aunk{"[]byte(" + describeAval(x) + ")"}
+		}
+		cs, ok := chars(a)
+		if !ok {
+			return aunk{"[]byte of a string with labels of unknown length"}
+		}
+		var vs []aval
+		for _, c := range cs {
+			if c.sym == "" {
+				vs = append(vs, aint(c.lit[0]))
+			} else {
+				vs = append(vs, astrv{[]atom{c}})
+			}
+		}
+		return newVals(vs, types.Typ[types.Uint8])
+	case isBytes(from) && isStrT(to):
+		sl, ok := x.(avals)
+		if !ok {
+			return aunk{"string(" + describeAval(x) + ")"}
+		}
+		var all []atom
+		for _, c := range sl.cells {
+			switch v := c.f[""].(type) {
+			case aint:
+				all = append(all, atom{lit: string(rune(v))})
+			case astrv:
+				all = append(all, v.atoms...)
+			default:
+				return aunk{"string of bytes " + describeAval(v)}
+			}
+		}
+		return mkStr(all)
+	}
+	return x
 }
